@@ -523,7 +523,19 @@ func (b *builder) makeIfaces() {
 func (b *builder) genTParams(i *Iface) {
 	names := []string{"T", "K", "V", "S", "E", "TKey", "Elem"}
 	if b.hz.LowerTypeParam {
-		names = append(names, "t", "id", "elem", "k")
+		// lower-case spellings; not names moq derives for unnamed parameters (t from a type T: open finding
+		// KF-derived-name-vs-type-param) and not qualifiers the source files use
+		for _, n := range []string{"elem", "tkey", "id", "tp", "k"} {
+			clash := false
+			for _, d := range b.allDeps() {
+				if d.Name == n || d.SrcAlias == n {
+					clash = true
+				}
+			}
+			if !clash {
+				names = append(names, n)
+			}
+		}
 	}
 	n := 1 + b.rng.Intn(3)
 	perm := b.rng.Perm(len(names))
